@@ -25,7 +25,7 @@ COMPONENTS = {"real": ["torchphysics conditions, samplers, UserFunction, Points,
 
 
 def budget(tier):
-    return {"cases": 4000 if tier == "quick" else 150000, "wall": 600 if tier == "quick" else 3300, "shrink": 50, "det_legs": 6}
+    return {"cases": 4000 if tier == "quick" else 150000, "wall": 600 if tier == "quick" else 3000, "shrink": 50, "det_legs": 6}
 
 
 def gen_case(seed, tier="quick"):
